@@ -126,8 +126,23 @@ func c16EvalParallel(t *fw.T, c *fw.Case) {
 	}
 	close(start)
 	wg.Wait()
+	// one more project for the same-bytes rounds in every case: escaped quoted parameters throughout (whatever the library
+	// does to a parameter it must do to a copy of its own), long enough for the parses to overlap
+	{
+		var sb strings.Builder
+		fmt.Fprintf(&sb, "JSIGHT 0.3\nINFO\n  Title \"Pets \\\"API\\\" \\\\v%d\"\n", c.Index)
+		for k := 0; k < 300; k++ {
+			fmt.Fprintf(&sb, "GET \"/pets/\\\"q%d_%d\\\"/\\\\x\"\n  200 any\n", c.Index, k)
+		}
+		d := run.Single([]byte(sb.String()))
+		c.Docs = append(c.Docs, d)
+		pristine = append(pristine, append([]byte{}, d.Files[d.Root]...))
+		solo = append(solo, fingerprint(run.ExecConcurrent(run.Single(append([]byte{}, d.Files[d.Root]...)))))
+		bad = append(bad, "")
+		badDoc = append(badDoc, 0)
+	}
 	// then every goroutine parses the very same projects (the same bytes) at the same moment
-	for _, j := range []int{c.Index % len(c.Docs), (c.Index + 5) % len(c.Docs)} {
+	for _, j := range []int{c.Index % len(c.Docs), (c.Index + 5) % len(c.Docs), len(c.Docs) - 1} {
 		// a pristine copy of the bytes, which no parse has seen yet, shared by all goroutines
 		shared := c.Docs[j]
 		shared.Files = map[string][]byte{}
